@@ -282,7 +282,7 @@ def run_config(job):
         results = SimNet(m, t, no_prss=no_prss, seed=seed, max_steps=200_000_000).run(prog)
         err = None
     except Exception as exc:
-        results, err = None, repr(exc)[:700]
+        results, err = None, ('BUDGET ' if getattr(exc, 'kind', '') == 'budget' else '') + repr(exc)[:700]
     finally:
         rec.uninstall()
     if results is None:
@@ -581,6 +581,8 @@ def run(ctx):
         cfg = (m, t, no_prss)
         ctx.count(f'cfg m={m} t={t} {"noprss" if no_prss else "prss"}')
         if res['err'] is not None:
+            if res['err'].startswith('BUDGET'):
+                raise common.InfraError('simulator step budget exceeded: ' + res['err'][:200])
             ctx.violation(f'run failed for m={m},t={t},no_prss={no_prss}: {res["err"]}',
                           {'kind': 'run', 'm': m, 't': t, 'no_prss': no_prss, 'seed': seed,
                            'plan': [[list(fd), cs] for fd, cs in plan]})
